@@ -116,7 +116,9 @@ def check_escapes(repo, rep):
             why = 'the substitution runs over %s, not over the literal ' \
                   'text itself' % model.norm(text)
         if isinstance(c.args[0], ast.Name):
-            cb = mod.functions.get(de.qualname + '.' + c.args[0].id)
+            # the callback: a nested def or a module-level function
+            cb = mod.functions.get(de.qualname + '.' + c.args[0].id) or \
+                mod.functions.get(c.args[0].id)
         # what is returned: the substitution result, or the text unchanged
         for r in [x for x in model.walk_shallow(de.node)
                   if isinstance(x, ast.Return)]:
